@@ -88,6 +88,19 @@ def run(ctx):
         ctx.fail("DefaultMark cli", "docs/overview.md marks %d checkers as enabled by default, `go-critic check` enables %d by default; differing: %s"
                  % (len(marked), len(cli_default), sorted(set(marked) ^ set(cli_default))[:8]), {})
 
+    # a checker named after a group runs that group's rules, however its construction was scheduled (parallel analysis passes)
+    gop = ctx.path("groupown.json")
+    thorough = ctx.tier == "thorough"
+    ctx.run_vh(["groupown", "-groups", ",".join(gnames), "-out", gop, "-seed", str(ctx.seed), "-rounds", "6" if thorough else "2",
+                "-workers", "12" if thorough else "8"], timeout=2400)
+    gown = json.load(open(gop))
+    if gown["groups_with_diagnostics"] < len(gnames) * 3 // 4 or gown["instances"] < len(gnames) * 8:
+        raise vlib.Infra("groupown: only %d of %d groups report anything on the example files (%d instances)" % (gown["groups_with_diagnostics"], len(gnames), gown["instances"]))
+    for m in gown["mismatches"] or []:
+        ctx.fail("CheckerDoesNotRunItsGroup %s" % m["checker"],
+                 "an instance of the rule-group checker %s constructed while other goroutines construct rule-group checkers reports %s (%s); constructed alone it reports %s"
+                 % (m["checker"], (m.get("got") or [])[:2], m.get("error") or "no error", (m.get("ref") or [])[:2]), {"checker": m["checker"]})
+
     def fact(name, tags, summary, before, after):
         return "<<%s, %s, %s, %s, %s>>" % (q(name), tset(sorted(q(t) for t in tags)), q(summary), q(before), q(after))
     gfacts = [fact(g["name"], g["tags"], g["summary"], g["before"], g["after"]) for g in groups]
@@ -97,15 +110,18 @@ def run(ctx):
     h = lambda b: q(hashlib.sha256(b).hexdigest()[:16])
     cfg = "SPECIFICATION Spec\nCONSTANTS\n"
     cfg += "  GroupFacts <- CGroupFacts\n  EmbeddedFacts <- CEmbeddedFacts\n"
+    cfg = cfg.replace("CONSTANTS\n", "CONSTANTS\n  ReferenceBehaviour <- CRefBeh\n  InstanceBehaviour <- CInstBeh\n")
     cfg += "  RegistryNames = %s\n  DocCmdNames = %s\n  OverviewNames = %s\n" % (tset(q(n) for n in names), tset(q(n) for n in doc_names), tset(q(n) for n in sorted(marks)))
     cfg += "  DefaultMarked = %s\n  DocDefaultNames = %s\n" % (tset(q(n) for n in sorted(marks) if marks[n]), tset(q(n) for n in docdef))
     cfg += "  ShippedIR = %s\n  CompiledIR = %s\n  ShippedDocs = %s\n  RenderedDocs = %s\n" % (h(shipped_ir), h(compiled_ir), h(shipped_docs), h(rendered_docs))
     cfg += "  ListedBeforeInit = %s\n  ListedAfterInit = %s\n  GroupNames = %s\n  CliDefaultNames = %s\n" % (
         tset(q(n) for n in pre["pre"]), tset(q(n) for n in pre["post2"]), tset(q(n) for n in gnames), tset(q(n) for n in cli_default))
     cfg += "  DegradedListings = %s\n" % tset(tset(q(n) for n in l) for l in degraded)
-    cfg += "INVARIANTS Shipped OneCheckerPerGroup DocsExact MarksAgree ListingFollowsRegistration ListingAllOrNothing\n"
+    cfg += "INVARIANTS Shipped OneCheckerPerGroup DocsExact MarksAgree ListingFollowsRegistration ListingAllOrNothing CheckerRunsItsGroup\n"
     # tuples cannot be written in a cfg: put them into a generated module that extends RegistryFacts
-    mod = "---- MODULE RegistryFactsMC ----\nEXTENDS RegistryFacts\nCGroupFacts == %s\nCEmbeddedFacts == %s\n====\n" % (tset(gfacts), tset(efacts))
+    mod = "---- MODULE RegistryFactsMC ----\nEXTENDS RegistryFacts\nCGroupFacts == %s\nCEmbeddedFacts == %s\nCRefBeh == %s\nCInstBeh == %s\n====\n" % (
+        tset(gfacts), tset(efacts), tset("<<%s, %s>>" % (q(n), q(d)) for n, d in sorted(gown["ref_digests"].items())),
+        tset("<<%s, %s>>" % (q(x.split(" ")[0]), q(x.split(" ")[1])) for x in gown["instance_digests"]))
     open(ctx.spec_path("RegistryFactsMC.tla"), "w").write(mod)
     res = ctx.tlc("RegistryFactsMC", cfg_text=cfg, workers=1, timeout=300)
     if res.error:
@@ -148,6 +164,7 @@ def run(ctx):
     cov = {
         "programs": len(groups), "disagreements_checked": 4 + len(groups) * 4 + len(names) * 3,
         "rule_groups": len(groups), "rules": sum(g["rules"] for g in groups), "registered": len(names), "embedded": len(emap),
+        "concurrent_construction": {k: gown[k] for k in ("groups", "files", "groups_with_diagnostics", "instances")},
         "ir_bytes": len(shipped_ir), "docs_bytes": len(shipped_docs), "tlc": {"violated": res.violated, "ok": res.ok},
         "samples": [groups[0], {"ir_sha": hashlib.sha256(shipped_ir).hexdigest()[:16], "regenerated_sha": hashlib.sha256(compiled_ir).hexdigest()[:16]}],
     }
